@@ -69,30 +69,8 @@ fn bnd_pb_merge_repeated_packed() {
     kani::cover!(!two);
 }
 
-/// (bounded: one pre-existing entry, one decoded entry) map merge: a later entry with an equal key
-/// replaces the earlier value, a different key is added; key=1 / value=2 in either order.
-#[kani::proof]
-#[kani::unwind(8)]
-#[kani::stub(alloc::fmt::format, stub_format)]
-fn bnd_pb_map_merge_btree() {
-    let k0: u8 = kani::any();
-    let v0: u8 = kani::any();
-    let k1: u8 = kani::any();
-    let v1: u8 = kani::any();
-    kani::assume(k0 < 128 && v0 < 128 && k1 < 128 && v1 < 128);
-    let mut m: BTreeMap<u32, u32> = BTreeMap::new();
-    m.insert(k0 as u32, v0 as u32);
-    let swapped: bool = kani::any();
-    // entry: length 4, (key 0x08 k1)(value 0x10 v1) in either order
-    let e: [u8; 5] = if swapped { [4, 0x10, v1, 0x08, k1] } else { [4, 0x08, k1, 0x10, v1] };
-    let mut r: &[u8] = &e[..];
-    let res = encoding::btree_map::merge(encoding::uint32::merge, encoding::uint32::merge, &mut m, &mut r, DecodeContext::default());
-    assert!(res.is_ok() && r.is_empty());
-    assert!(m.get(&(k1 as u32)) == Some(&(v1 as u32)));
-    if k0 == k1 { assert!(m.len() == 1); } else { assert!(m.len() == 2 && m.get(&(k0 as u32)) == Some(&(v0 as u32))); }
-    kani::cover!(k0 == k1 && v0 != v1 && swapped);
-    kani::cover!(k0 != k1);
-}
+// map merge (`merge_with_default` + BTreeMap/AHashMap insertion) and Message::merge / decode_length_delimited harnesses
+// were tried and removed: CBMC exceeded 40 minutes and 22 GB on a one-entry BTreeMap<u32,u32>.
 
 /// (bounded: one entry) map encode vs encoded_len, including default key / default value entries
 /// (with and without the crate feature pb-encode-default-value, see props.py)
@@ -119,38 +97,3 @@ fn bnd_pb_map_len_btree() {
     kani::cover!(k != 0 && v == 0);
 }
 
-/// a minimal message: `message M { uint32 a = 1; }`
-#[derive(Debug, Default)]
-struct M1 { a: u32 }
-impl Message for M1 {
-    fn encode_raw<B: BufMut>(&self, buf: &mut B) { if self.a != 0 { encoding::uint32::encode(1, &self.a, buf); } }
-    fn merge_field<B: Buf>(&mut self, tag: u32, wire_type: WireType, buf: &mut B, ctx: DecodeContext) -> Result<(), DecodeError> {
-        match tag { 1 => encoding::uint32::merge(wire_type, &mut self.a, buf, ctx), _ => skip_field(wire_type, tag, buf, ctx) }
-    }
-    fn encoded_len(&self) -> usize { if self.a != 0 { encoding::uint32::encoded_len(1, &self.a) } else { 0 } }
-}
-
-/// (bounded: frames of at most 5 bytes) length-delimited framing: a frame whose length prefix
-/// exceeds the bytes present is rejected; a complete frame decodes and Message::merge takes the
-/// last occurrence of a singular field and ignores unknown fields.
-#[kani::proof]
-#[kani::unwind(8)]
-#[kani::stub(alloc::fmt::format, stub_format)]
-fn bnd_pb_length_delimited_le5() {
-    let raw: [u8; 5] = kani::any();
-    let len: usize = kani::any();
-    kani::assume(len >= 1 && len <= 5);
-    kani::assume(raw[0] < 128);
-    let r: &[u8] = &raw[..len];
-    let res = M1::decode_length_delimited(r);
-    if (raw[0] as usize) > len - 1 { assert!(res.is_err()); }
-    kani::cover!(res.is_ok() && raw[0] == 2);
-    kani::cover!(res.is_err() && raw[0] as usize > len - 1);
-    // concatenation = merge: two occurrences of field 1, an unknown varint field 2 in between
-    let x: u8 = kani::any();
-    let y: u8 = kani::any();
-    let u: u8 = kani::any();
-    kani::assume(x < 128 && y < 128 && u < 128);
-    let cat: [u8; 6] = [0x08, x, 0x10, u, 0x08, y];
-    match M1::decode(&cat[..]) { Ok(m) => assert!(m.a == y as u32), Err(_) => assert!(false) }
-}
